@@ -86,7 +86,7 @@ def apply_uf(family, arg, vec=False):
         if CONFIG.tag_paths and family in ('pow10', 'exp', 'log', 'log10', 'pow'):
             name = family + ('_vec' if vec else '_sc')
         f = uf(name)
-        arg = z3.simplify(arg)
+        arg = z3.simplify(arg, som=True)
         t = f(arg)
         reg = _registry()
         seen = reg.setdefault(name, [])
@@ -245,6 +245,15 @@ class RealT(object):
     def __rtruediv__(self, o):
         return self._rbin(o, lambda a, b: a / b)
 
+    def __floordiv__(self, o):
+        return self._bin(o, lambda a, b: z3.ToReal(z3.ToInt(a / b)))
+
+    def __rfloordiv__(self, o):
+        return self._rbin(o, lambda a, b: z3.ToReal(z3.ToInt(a / b)))
+
+    def __mod__(self, o):
+        return self._bin(o, lambda a, b: a - b * z3.ToReal(z3.ToInt(a / b)))
+
     def __neg__(self):
         with ch.NoTracing():
             return RealT(-self.e)
@@ -335,15 +344,34 @@ def pow_term(b, x, vec=False):
     if CONFIG.tag_paths:
         name = 'pow' + ('_vec' if vec else '_sc')
     f = uf(name, 2)
+    b = z3.simplify(b, som=True)
+    x = z3.simplify(x, som=True)
     t = f(b, x)
     ax = CONFIG.axioms.get('pow', ())
+    reg = _registry()
+    seen = reg.setdefault(name, [])
+    for (b0, x0) in seen:
+        if z3.eq(b0, b) and z3.eq(x0, x):
+            return t
     if 'pos' in ax:
         _assert(z3.Implies(b > 0, t > 0))
+    if 'nonneg' in ax:
+        _assert(z3.Implies(b >= 0, t >= 0))
+        _assert(z3.Implies(z3.And(b == 0, x > 0), t == 0))
+        CONFIG.used.add('pow:nonneg')
+    if 'mono_base' in ax:
+        # for a positive exponent the power is strictly increasing in a non-negative base
+        for (b0, x0) in seen:
+            if z3.eq(x0, x):
+                _assert(z3.Implies(z3.And(x > 0, b0 >= 0, b >= 0), (b0 < b) == (f(b0, x0) < t)))
+                _assert(z3.Implies(z3.And(x > 0, b0 >= 0, b >= 0), (b0 == b) == (f(b0, x0) == t)))
+        CONFIG.used.add('pow:mono_base')
     if 'explog' in ax:
         # x**m = exp(m*log x) for x>0
         t2 = apply_uf('exp', x * apply_uf('log', b, vec), vec)
         _assert(z3.Implies(b > 0, t == t2))
         CONFIG.used.add('pow=exp(m log x)')
+    seen.append((b, x))
     return t
 
 
